@@ -269,6 +269,20 @@ class Program:
             raise AnalysisError(f"anchor vanished: class {qualname} not found in {self.repo}")
         return c
 
+    def stored_attr_names(self):
+        """every attribute name that is assigned somewhere in the package (instance attributes)"""
+        if getattr(self, "_stored", None) is None:
+            names = set()
+            for m in self.modules.values():
+                for n in ast.walk(m.tree):
+                    if isinstance(n, ast.Attribute) and isinstance(n.ctx, (ast.Store, ast.Del)):
+                        names.add(n.attr)
+                    elif isinstance(n, ast.Call) and isinstance(n.func, ast.Name) and n.func.id in ("setattr", "getattr") and len(n.args) >= 2 \
+                            and isinstance(n.args[1], ast.Constant) and isinstance(n.args[1].value, str):
+                        names.add(n.args[1].value)
+            self._stored = names
+        return self._stored
+
     def digests(self):
         return {m.relpath: m.sha256 for m in self.modules.values()}
 
